@@ -60,6 +60,9 @@ type Stmt struct {
 	// 1 = the handle the previous call returned (call chaining), 2 = a handle obtained once,
 	// before the first statement, and kept
 	H int `json:"h,omitempty"`
+	// restart, Reinit: between Stop and Start the initial election id is specified again
+	// (Connection().WithInitialElectionID(U, U2)) - it is then the id most recently set
+	Reinit bool `json:"reinit,omitempty"`
 }
 
 type Case struct {
@@ -616,6 +619,9 @@ func runCase(c Case) *ev.Verdict {
 			tr := captb.New("c18")
 			if f := tr.Run(func(t testing.TB) {
 				cl.Stop(t)
+				if st.Reinit {
+					cl.Connection().WithInitialElectionID(st.U, st.U2)
+				}
 				cl.Start(ctx, t)
 				cl.StartSending(ctx, t)
 			}); f != nil || tr.Fataled() {
@@ -623,6 +629,13 @@ func runCase(c Case) *ev.Verdict {
 				return v
 			}
 			restarts++
+			if st.Reinit {
+				// the initial election id was specified again between Stop and Start: it is now
+				// the id most recently set
+				cur = &gen.ID128{Lo: st.U, Hi: st.U2}
+				elecSeen = true
+				v.Class("initial-election-id-respecified-at-restart")
+			}
 			// the new session's handshake: parameters as configured, then (elected mode) an
 			// election id whose value the property does not fix
 			p := &spb.SessionParameters{}
@@ -886,7 +899,11 @@ func drawCase(rt *rapid.T) Case {
 		case k < 17:
 			c.Prog = append(c.Prog, Stmt{K: "elec", U: uint64(rapid.IntRange(1, 9).Draw(rt, "lo")), U2: uint64(rapid.IntRange(0, 2).Draw(rt, "hi")), H: drawHandle(rt)})
 		case k == 17 && rapid.IntRange(0, 2).Draw(rt, "restart?") == 0:
-			c.Prog = append(c.Prog, Stmt{K: "restart"})
+			rs := Stmt{K: "restart"}
+			if c.Mode == "elected" && rapid.Bool().Draw(rt, "reinit") {
+				rs.Reinit, rs.U, rs.U2 = true, uint64(rapid.IntRange(1, 9).Draw(rt, "lo")), uint64(rapid.IntRange(0, 2).Draw(rt, "hi"))
+			}
+			c.Prog = append(c.Prog, rs)
 		default:
 			c.Prog = append(c.Prog, Stmt{K: "check", B: rapid.IntRange(0, len(kinds)-1).Draw(rt, "b")})
 		}
